@@ -64,6 +64,9 @@ def run(prog, tier):
     from ._families import borrow as _borrow
     from . import c16 as _c16
     _borrow(R, P, "GRAPH", prog, _c16.analyse, floor=100)
+    # a token stream consumed by two loops (or by zip and a later loop) loses or skips entries of the file
+    from ._shared import check_iterator_reuse
+    check_iterator_reuse(R, prog, P, ['cnfgen.graphs'], 30)
     return R
 
 
